@@ -1,5 +1,6 @@
 import GoSQLXModel.Model.ErrChain
 import GoSQLXModel.Gen.ErrorSites
+import GoSQLXModel.Gen.Structure
 /-!
 # C11 — Cancellation is honoured promptly, reported as such, and leaves no residue
 
@@ -33,6 +34,14 @@ theorem gen_catch_all_present :
 theorem gen_poll_sites_expected :
     (["Tokenizer.TokenizeContext", "Parser.parseExpression", "Parser.ParseContext", "Parser.parseStatement", "ParseWithContext"].all
       fun f => Gen.ctxSites.any fun s => s.2.1 == f) = true := by decide +kernel
+
+/-- a context that is done before the call is refused whatever the text: the three entry points that do work of their
+    own begin with a poll of the context that returns its error, and every other exported function that takes a
+    context hands it on without looping itself (regenerated from the source) -/
+theorem gen_entry_polls_first :
+    (["sql/tokenizer:Tokenizer.TokenizeContext", "sql/parser:Parser.ParseContext", "gosqlx:ParseWithContext"].all
+      fun f => Gen.Structure.ctxEntries.any fun e => e.1 == f && e.2 == "poll-first") = true ∧
+    (Gen.Structure.ctxEntries.filter fun e => !(e.2 == "poll-first" || e.2 == "delegates")) = [] := by decide +kernel
 
 /-- what an inner parser frame may do to an error on its way up -/
 inductive Frame where
